@@ -10,7 +10,7 @@
    code makes on the host / the stream and per decision it takes (pc values):
 
      call     idle -Call-> start -Bug-> ares                    isZeroProto(resp) fails: no stream at all
-              start -NS-> ns -NSRet(res)-> open | ares          host.NewStream(protocols in the order of the options)
+              start -NS-> ns -NSRet(res, why, proto)-> open | ares     host.NewStream(protocols in the order of the options)
               open -SetDL-> dl                                  s.SetDeadline(now + sendTimeout)
               dl -CWrite-> wrote | -WErr-> closing              writer.WriteMsg(req)
               wrote -CloseW(res)-> reading | closing   (sr,psr) s.CloseWrite(); "close called for canceled stream" is benign
@@ -53,7 +53,7 @@ Reverse(q) == [i \in 1..Len(q) |-> q[Len(q) + 1 - i]]
 TailN(q, n) == IF Len(q) > n THEN SubSeq(q, Len(q) - n + 1, Len(q)) ELSE q
 
 VARIABLES now,     \* clock
-          conf,    \* never changes: [srv: per host [on, protos, rto, reqtype, limit], cluster, gated]
+          conf,    \* never changes: [srv: per host [on, protos, rto, reqtype, limit], cluster, gated, relay0]
           s,       \* per call: record, see IdleCall
           att,     \* per call: its attempts [nsAt, res, why, open, sent, closed, endAt, proto]
           ses,     \* per call: the server session of each attempt, see NoSes
@@ -96,7 +96,6 @@ RespVal(res, v) == IF res \in {"resp", "respfalse", "resperr"} THEN v ELSE 0    
 (* protonil.Check: a message field that is nil; the reader's size limit *)
 Valid(p, rq) == ~(Srv(p).reqtype = "psx" /\ rq.shape = "empty")
 TooBig(p, rq) == Srv(p).limit > 0 /\ rq.shape = "big"
-FirstSupported(ps, S) == LET I == {i \in 1..Len(ps) : ps[i] \in S} IN IF I = {} THEN "-" ELSE ps[Min(I)]
 (* sendRecvOpts.protocols: WithDelimitedProtocol adds to the front *)
 ProtoOrder(base, delims) == IF Defect = "appendProto" THEN <<base>> \o delims ELSE Reverse(delims) \o <<base>>
 
